@@ -146,6 +146,43 @@ func holders() []shaped {
 	return out
 }
 
+// defined (named) types whose underlying kind is one the entry points accept
+type NStr string
+type NInt int
+type NF float64
+type NB bool
+type NMap map[string]string
+type NKMap map[NStr]int
+type NSlice []Leaf
+type NStrs []NStr
+
+type NamedFields struct {
+	S  NStr            `valid:"required,to=1~3,in=(a1/b),prefix=a,unique"`
+	I  NInt            `valid:"to=1~3,in=(1/2),int"`
+	F  NF              `valid:"float,le=1"`
+	B  NB              `valid:"required,in=(true)"`
+	M  NKMap           `valid:"required,ge=3"`
+	L  NStrs           `valid:"unique,ints,le=1"`
+	LS NSlice          `valid:"required"`
+	MS map[NStr]*Leaf  `valid:"exist"`
+	MN map[NInt]Leaf   `valid:"exist"`
+	E1 NStr            `valid:"either=1,botheq=2"`
+	E2 NStr            `valid:"either=1,botheq=2"`
+}
+
+func namedShapes() []shaped {
+	l := Leaf{"", 9}
+	ns := NStr("http://h/p?k=a1")
+	return []shaped{
+		{"map[NStr]int", map[NStr]int{"k": 5, "j": 0}}, {"map[NStr]NStr", map[NStr]NStr{"k": "a1", "j": ""}}, {"NMap", NMap{"k": "a1", "j": ""}}, {"NKMap", NKMap{"k": 5}},
+		{"[]map[NStr]string", []map[NStr]string{nil, {"k": "a"}}}, {"[]NMap", []NMap{nil, {"k": "a"}}}, {"&NKMap", &NKMap{"k": 1}}, {"map[NInt]string", map[NInt]string{1: "a"}},
+		{"map[string]NStr", map[string]NStr{"k": "a1", "j": ""}}, {"map[string]NInt", map[string]NInt{"k": 5}}, {"map[NStr]Leaf", map[NStr]Leaf{"k": l}}, {"map[NStr]*Leaf", map[NStr]*Leaf{"k": nil, "j": &l}},
+		{"NStr", NStr("a1")}, {"NStr url", ns}, {"&NStr", &ns}, {"NInt", NInt(5)}, {"NF", NF(1.5)}, {"NB", NB(true)}, {"NSlice", NSlice{l, {}}}, {"NStrs", NStrs{"a", "a"}}, {"[]NInt", []NInt{1, 1}},
+		{"NamedFields{}", NamedFields{}}, {"&NamedFields", &NamedFields{S: "zzzz", I: 9, F: 2.5, B: true, M: NKMap{"a": 1}, L: NStrs{"x", "x"}, LS: NSlice{l}, MS: map[NStr]*Leaf{"a": nil, "b": &l}, MN: map[NInt]Leaf{1: l}, E1: "a"}},
+		{"[]NamedFields", []NamedFields{{}, {S: "a1"}}}, {"map[NStr]NamedFields", map[NStr]NamedFields{"a": {}}},
+	}
+}
+
 func catalogue() []shaped {
 	l := Leaf{"", 9}
 	pl := &l
@@ -179,7 +216,7 @@ func catalogue() []shaped {
 			b int   `valid:"required"`
 		}{}},
 	}
-	return append(append(out, holders()...), groupShapes()...)
+	return append(append(append(out, holders()...), groupShapes()...), namedShapes()...)
 }
 
 type entry struct {
@@ -385,7 +422,7 @@ func main() {
 	runner.Main(runner.Config{
 		Property:  "C13",
 		Technique: "bounded-exhaustive enumeration: value-shape catalogue x entry points; rule-text token sequences, all single-byte edits of 40 seed rules, all byte strings <=2; oracle = the call returns normally",
-		Rule: "(1) ~140 value shapes (nil, typed nil pointers, multi-level pointers, scalars, collections of structs/pointers with nil positions, non-string-keyed maps, interface-typed fields and elements, func/chan, nested collections; " +
+		Rule: "(1) ~165 value shapes (nil, typed nil pointers, multi-level pointers, scalars, collections of structs/pointers with nil positions, non-string-keyed maps, interface-typed fields and elements, func/chan, nested collections, defined types over every accepted kind - named string/int/float/bool, named maps and slices, maps keyed by a named string; " +
 			"also as fields under required/exist) x 20 entry points; (2) every sequence of <=n tokens over 34 rule names + 14 syntax tokens, every single-byte substitution (256 values), insertion and deletion of 40 seed rules, every byte string of length<=2, " +
 			"argument strings <=4 over 10 syntax symbols for table-indexed rules; each through 16 callers (Var/Struct/Map/Url on string,int,float,slice values + splitter/parser/extractor); transitions = calls; non-trivial = value-shape cases",
 		Assumptions: []string{"excluded by the statement: cyclic graphs, panicking user callbacks, re-use of a consumed validator object; an unhashable key of NestedStructForRule's rule map is a Go-level misuse of that argument"},
